@@ -27,7 +27,26 @@ def run(prog, run):
     r2(prog, run)
     r3(prog, run)
     r4(prog, run)
+    r6(prog, run)
     r5(prog, run)
+
+
+def r6(prog, run):
+    """a deliberate close must end the outstanding requests: the session-end handler cancels them only when the stream cannot be resumed, and it runs inside the socket close.
+    The clause is C10.R5's; it is shared, not copied."""
+    from . import C10
+    rid = run.rule('C07.R6', 'on a deliberate disconnect the stream manager is told that the stream is closed before the socket is closed (= C10.R5): the session-end handler that runs '
+                             'inside the close then sees a stream that cannot be resumed and cancels every outstanding request', floor=1)
+    sub = type(run)(run.prop, run.tier, run.seed)
+    C10.r5(prog, sub)
+    run.instance(rid)
+    if sub.violations:
+        v = sub.violations[0]
+        run.violation(rid, 'disconnectFromHost#requests-left-pending', v['site'],
+                      'the socket is closed while the stream still counts as resumable: the session-end handler keeps the outstanding requests for a resumption that is given up '
+                      'right afterwards, so they neither complete nor get cancelled (' + v['what'][:160] + ')', v.get('path'))
+    else:
+        run.ok(rid, 'src/client/QXmppOutgoingClient.cpp', 'onStreamClosed() precedes the socket close on every path (C10.R5)')
 
 
 def _fe_event(f, nid):
